@@ -130,7 +130,7 @@ pub fn scenario(seed: u64, kind: Kind, volume: u64, quiesce: bool) -> Made {
         w.browse(h, BROWSED);
     }
     // host names as applications spell them (letter case is theirs), sometimes searched twice, stopped in another spelling
-    let wanted = *rng.pick(&["wanted.local.", "Wanted-Host.local.", "WANTED.local."]);
+    let wanted = *rng.pick(&["wanted.local.", "Wanted-Host.local.", "WANTED.local.", "B\u{dc}RO-Wanted.local."]);
     if with_resolver {
         w.resolve_hostname(h, wanted, None);
         if rng.chance(1, 3) {
@@ -162,7 +162,7 @@ pub fn scenario(seed: u64, kind: Kind, volume: u64, quiesce: bool) -> Made {
             w.stop_browse(h, BROWSED);
         }
         if with_resolver {
-            w.stop_resolve_hostname(h, &if rng.chance(1, 2) { wanted.to_string() } else { wanted.to_uppercase().replace(".LOCAL.", ".local.") });
+            w.stop_resolve_hostname(h, &if rng.chance(1, 2) { wanted.to_string() } else { wanted.to_ascii_uppercase().replace(".LOCAL.", ".local.") });
         }
         searches_open_at_end = false;
     }
